@@ -1,3 +1,26 @@
-(* Common/ScriptFlags.v – the verification flags the interpreter implements *)
+(* Common/ScriptFlags.v – the verification flags the interpreter implements, and the names
+   of the opcode classes both the MODEL (Python elif chain) and the SPEC (opcode table)
+   dispatch on *)
 From BV Require Import Common.Base.
 Record flags := { f_p2sh : bool; f_nulldummy : bool; f_cleanstack : bool; f_discourage_nops : bool }.
+
+Inductive kind :=
+| KSmall | KBin | KUn | K2Drop | K2Dup | K2Over | K2Rot | K2Swap | K3Dup
+| KMultisig (verify : bool) | KChecksig (verify : bool) | KCodesep | KDepth | KDrop | KDup
+| KElse | KEndif | KEqual | KEqualVerify | KFromAlt | KHash160 | KHash256 | KIf (negate : bool)
+| KIfdup | KNip | KNop | KNopN | KOver | KPickRoll (roll : bool) | KReturn | KRipemd | KRot | KSize
+| KSha1 | KSha256 | KSwap | KToAlt | KTuck | KVerify | KWithin | KBad.
+Definition kind_eqb (a b : kind) : bool :=
+  match a, b with
+  | KSmall, KSmall | KBin, KBin | KUn, KUn | K2Drop, K2Drop | K2Dup, K2Dup | K2Over, K2Over | K2Rot, K2Rot
+  | K2Swap, K2Swap | K3Dup, K3Dup | KCodesep, KCodesep | KDepth, KDepth | KDrop, KDrop | KDup, KDup
+  | KElse, KElse | KEndif, KEndif | KEqual, KEqual | KEqualVerify, KEqualVerify | KFromAlt, KFromAlt
+  | KHash160, KHash160 | KHash256, KHash256 | KIfdup, KIfdup | KNip, KNip | KNop, KNop | KNopN, KNopN
+  | KOver, KOver | KReturn, KReturn | KRipemd, KRipemd | KRot, KRot | KSize, KSize | KSha1, KSha1
+  | KSha256, KSha256 | KSwap, KSwap | KToAlt, KToAlt | KTuck, KTuck | KVerify, KVerify | KWithin, KWithin
+  | KBad, KBad => true
+  | KMultisig x, KMultisig y | KChecksig x, KChecksig y | KIf x, KIf y | KPickRoll x, KPickRoll y => Bool.eqb x y
+  | _, _ => false
+  end.
+Lemma kind_eqb_eq a b : kind_eqb a b = true -> a = b.
+Proof. destruct a, b; cbn; try discriminate; try reflexivity; intros H; apply eqb_prop in H; now subst. Qed.
